@@ -7,6 +7,7 @@ import S2T.Gen.GlobalWrites
 import S2T.Props.C15_Conc
 import S2T.Props.C15_Settings
 import S2T.Props.C15_Suspend
+import S2T.Props.C15_Reuse
 /-!
 # C15 — Isolation: results independent of history and of concurrent work
 
@@ -25,7 +26,9 @@ Parts:
 * §5 closed world: every global write found in the current source is one of the cells above;
 * §6–§8 (`Props/C15_Conc.lean`) the round-key cache under concurrent use, cache keys, generated key / lock facts;
 * §9 (`Props/C15_Settings.lean`) save / set / restore sections around interpreter-global settings, registries extended at
-     import time: model, counterexamples for the unsynchronised protocol, generated 'no such writer' facts.
+     import time: model, counterexamples for the unsynchronised protocol, generated 'no such writer' facts;
+* §11 (`Props/C15_Reuse.lean`) objects reused between extractions (total vs partial reset), module tables handed to a
+     helper that updates its parameter; generated 'no shared stateful object' / 'no global passed to a mutator' facts.
 -/
 namespace S2T.C15
 open S2T.Patch S2T.Patch.Pc
